@@ -58,22 +58,35 @@ def conclude(prop, tier, seed, results, wall, reg):
     lines = []
     violations = 0
     known = 0
-    # ---- refutations -> replay -> VIOLATION / KNOWN-FINDING
-    seen_units = set()
+    # ---- refutations -> replay -> VIOLATION / KNOWN-FINDING   (one report per unit)
+    by_unit = {}
     for r, o in refuted:
-        confirmed, detail = rp.try_replay(reg, r, o)
-        if not confirmed and r["name"] not in seen_units:
-            # bounded search for a failing input of this unit (native, small scope)
-            found = rp.search_failing_input(reg, r, o, seed)
+        by_unit.setdefault(r["name"], (r, []))[1].append(o)
+    for uname, (r, obsr) in by_unit.items():
+        unknown = []
+        for o in obsr:
+            kf = next((f for f in findings if f.get("property") == prop and f.get("obligation") == o["name"]), None)
+            if kf is not None:
+                known += 1
+                lines.append(f"KNOWN-FINDING: property={prop} {kf['_line'][len('finding:'):].strip()}")
+            else:
+                unknown.append(o)
+        if not unknown:
+            continue
+        confirmed, detail, which = False, None, unknown[0]
+        for o in unknown:
+            ok, d = rp.try_replay(reg, r, o)
+            if ok:
+                confirmed, detail, which = True, d, o
+                break
+            detail = detail or d
+        if not confirmed:
+            found = rp.search_failing_input(reg, r, unknown[0], seed)
             if found is not None:
                 confirmed, detail = True, found
-        seen_units.add(r["name"])
-        kf = next((f for f in findings if f.get("property") == prop and f.get("obligation") == o["name"]), None)
-        if kf is not None:
-            known += 1
-            lines.append(f"KNOWN-FINDING: property={prop} {kf['_line'][len('finding:'):].strip()}")
-            continue
-        path = write_replay(prop, r, o, confirmed, detail)
+        ob = dict(which)
+        ob["all_refuted_obligations"] = [{"name": o["name"], "reason": o.get("reason"), "backend": o.get("backend")} for o in unknown]
+        path = write_replay(prop, r, ob, confirmed, detail)
         violations += 1
         lines.append(f"VIOLATION property={prop} replay={path}" + ("" if confirmed else " no-failing-input-found"))
         exit_code = 1
